@@ -1,5 +1,6 @@
 import SignaloModel.Proofs.BridgeSinks
 import SignaloModel.Proofs.SinksProofs
+import SignaloModel.Proofs.SinkRunning
 /-!
 # C11 — Statistics sinks finalise to the batch statistic of everything received
 
@@ -8,6 +9,20 @@ The property theorems for C11: `#check` prints each statement, `#print axioms` i
 -/
 open SignaloModel
 
+#check @SinkModels.collect_finalize
+#check @SinkModels.last_finalize
+#check @SinkModels.integrate_finalize
+#check @SinkModels.max_finalize
+#check @SinkModels.min_finalize
+#check @SinkModels.statistics_finalize
+#check @SinkModels.collect_running
+#check @SinkModels.meanVar_running
+#check @SinkModels.mean_running
+#check @SinkModels.integrate_running
+#check @SinkModels.bounds_running
+#check @SinkModels.max_running
+#check @SinkModels.min_running
+#check @SinkModels.running_eq
 #check @SinkModels.min_feed
 #check @SinkModels.max_feed
 #check @SinkModels.bounds_feed
@@ -23,6 +38,20 @@ open SignaloModel
 #check @SinkModels.finalize_empty
 #check @Sinks.winv_step
 
+#print axioms SinkModels.collect_finalize
+#print axioms SinkModels.last_finalize
+#print axioms SinkModels.integrate_finalize
+#print axioms SinkModels.max_finalize
+#print axioms SinkModels.min_finalize
+#print axioms SinkModels.statistics_finalize
+#print axioms SinkModels.collect_running
+#print axioms SinkModels.meanVar_running
+#print axioms SinkModels.mean_running
+#print axioms SinkModels.integrate_running
+#print axioms SinkModels.bounds_running
+#print axioms SinkModels.max_running
+#print axioms SinkModels.min_running
+#print axioms SinkModels.running_eq
 #print axioms SinkModels.min_feed
 #print axioms SinkModels.max_feed
 #print axioms SinkModels.bounds_feed
